@@ -13,7 +13,7 @@ if ! git -C $W apply $S/patch.diff 2>/dev/null; then
 fi
 (cd $W && PATH=/opt/veriftools/go1.26.8/bin:$PATH GOTOOLCHAIN=local GOFLAGS=-mod=mod go build ./... >/dev/null 2>&1) || { echo "MUTANT $(basename $S) check=$ID: does not build on the current tree"; git -C /repo worktree remove --force $W; exit 3; }
 mkdir -p $O
-cd /verif && VERIF_REPO=$W VERIF_OUT=$O timeout 2400 ./bin/verif check $ID "$@" > $O/log 2>&1; rc=$?
+cd /verif && VERIF_REPO=$W VERIF_OUT=$O timeout 1500 ./bin/verif check $ID "$@" > $O/log 2>&1; rc=$?
 echo "MUTANT $(basename $S) check=$ID exit=$rc $(grep -c '^VIOLATION' $O/log) violation line(s)"
 grep -m3 "^VIOLATION\|^  harness=\|^INCONCLUSIVE\|^ENGINE" $O/log | cut -c1-260
 git -C /repo worktree remove --force $W; rm -rf $O
